@@ -26,7 +26,7 @@ from . import c07 as shared
 from .common import enc, dec
 
 LANGS = ["c", "cpp", "py", "html"]
-C10_CLASSES = ["siblings", "psUniqueName", "psMemo", "psTemplateCache", "psModelCache"]
+C10_CLASSES = shared.PROC_CLASSES
 OPTSETS = {
     "c": [("default", []), ("pp2", ["--pp-max-emptylines", "2", "--pp-trim-trailing-whitespace"]), ("asserts", ["--enable-serialization-asserts"])],
     "cpp": [("default", []), ("pp1", ["--pp-max-emptylines", "1", "--pp-trim-trailing-whitespace"]), ("c++17", ["--language-standard", "c++17"])],
@@ -432,6 +432,16 @@ def run(ctx: common.Ctx):
                 ctx.fail({"kind": "run-outcome-depends-on-history", "lang": m["lang"], "variant": "three-runs"},
                          "the same run succeeds or fails depending on earlier runs in the interpreter",
                          {"cfg": m["cfg"], "errors": [str(x["error"])[:300] for x in res]})
+            if ok_runs and not b0["error"]:
+                # first run of the polluted interpreter vs the same run in a fresh interpreter
+                d0 = pr.compare(b0["files"], ok_runs[0]["files"])
+                if d0 and not (m["lang"] == "py" and False):
+                    rel = d0[0]
+                    where, d = shared.where_of_diff(m["lang"], pathlib.Path(meta[bases[m["cfg"]]]["runs"][0]["out"]) / rel, pathlib.Path(m["runs"][0]["out"]) / rel)
+                    ctx.fail({"kind": "first-run-in-used-interpreter-differs-from-fresh-process", "lang": m["lang"], "templates": m["templates"],
+                              "file_kind": pr.file_kind(m["lang"], rel), "where": where},
+                             f"{m['lang']}: {rel} written by the first generator run of an interpreter that used the name generator before differs from a fresh process ({where})",
+                             {"input": m["input"], "lang": m["lang"], "options": m["extra"], "file": rel, "first_differing_line": d, "prelude": "uniq"})
             for i in range(len(ok_runs) - 1):
                 d3 = pr.compare(ok_runs[i]["files"], ok_runs[i + 1]["files"])
                 if d3:
